@@ -342,7 +342,7 @@ def absent_data(ctx, rid):
 
             def stand_in(body):
                 """A call in the branch receives the recorded length (zero-filled stand-in of that many bytes)."""
-                local_len = {t.id for s_ in body for x in ast.walk(s_) if isinstance(x, ast.Assign) and isinstance(x.value, ast.Subscript) and const_str(x.value.slice) == "length"
+                local_len = {t.id for x in own_nodes(fn.node) if isinstance(x, ast.Assign) and isinstance(x.value, ast.Subscript) and const_str(x.value.slice) == "length"
                              for t in x.targets if isinstance(t, ast.Name)}
                 for s_ in body:
                     for x in ast.walk(s_):
@@ -455,6 +455,8 @@ def size_accounting(ctx, rid):
     ifs = [n for n in fn.node.body if isinstance(n, ast.If)]
     rem = None
     done = False
+    rets0 = [n for n in own_nodes(fn.node) if isinstance(n, ast.Return) and isinstance(n.value, ast.Tuple) and len(n.value.elts) == 2 and isinstance(n.value.elts[1], ast.Name)]
+    SIZE = rets0[0].value.elts[1].id if rets0 else "size"
     for st in ifs:
         t = st.test
         if not (isinstance(t, ast.Compare) and len(t.ops) == 1):
@@ -478,7 +480,7 @@ def size_accounting(ctx, rid):
             order_bad = False
             seen_dec = False
             for s in body:
-                if isinstance(s, ast.Assign) and any(isinstance(x, ast.Name) and x.id == "size" for x in s.targets):
+                if isinstance(s, ast.Assign) and any(isinstance(x, ast.Name) and x.id == SIZE for x in s.targets):
                     size_v = norm(s.value)
                     if seen_dec and rem in size_v:
                         order_bad = True
@@ -492,7 +494,7 @@ def size_accounting(ctx, rid):
     if not done:
         ctx.undecided(rid, fn, "size accounting of HashChecker.advance not found")
     rets = [n for n in own_nodes(fn.node) if isinstance(n, ast.Return) and isinstance(n.value, ast.Tuple) and len(n.value.elts) == 2]
-    ok = bool(rets) and all(norm(r.value.elts[1]) == "size" for r in rets)
+    ok = bool(rets) and all(norm(r.value.elts[1]) == SIZE for r in rets)
     ctx.decide(rid, fn, ok, "advance() returns the computed size", "advance() does not return the computed size", "advance :: return")
     # the size yielded by process_current is the one advance() returned
     pc = ctx.prog.func("torrentfile.recheck:HashChecker.process_current")
